@@ -133,7 +133,7 @@ func classifyReader(u *Unit, e ast.Expr, at ast.Node, depth int) (origin string,
 // ReaderSites enumerates every call argument whose parameter type is io.Reader.
 func (r *Run) ReaderSites(scope Scope) []*ReaderSite {
 	var out []*ReaderSite
-	for _, fd := range r.Prog.FuncsIn(scope) {
+	for _, fd := range r.Prog.AllFuncsIn(scope) {
 		for _, u := range r.G.unitsOf(fd) {
 			info := u.Info
 			ast.Inspect(u.Body, func(n ast.Node) bool {
